@@ -36,6 +36,9 @@ pub struct ConcScript {
     /// install the yield-point callback that sleeps pseudo-randomly before lock acquisitions
     #[serde(default)]
     pub yields: bool,
+    /// how many overlays the run may create in total (NomtApi's MaxOvl for the trace)
+    #[serde(default)]
+    pub max_ovl: u64,
 }
 
 struct Log {
@@ -43,6 +46,9 @@ struct Log {
     recs: Vec<J>,
     sess_free: BTreeSet<u64>,
     fin_free: BTreeSet<u64>,
+    /// overlay identifiers are handed out in order and never recycled (as in NomtApi)
+    next_ovl: u64,
+    max_ovl: u64,
 }
 
 impl Log {
@@ -96,6 +102,13 @@ fn on_point(class: &str, name: &str) {
                 log.sess_free.remove(&id);
                 rec["s"] = json!(id);
             }
+            // a changeset is consumed at this point of the order (NomtApi frees its identifier in the
+            // Commit / TryCommit action), not when the call returns
+            if rec["ev"] == "Commit" || rec["ev"] == "TryCommit" {
+                if let Some(f) = rec["f"].as_u64() {
+                    log.fin_free.insert(f);
+                }
+            }
             let idx = log.push(rec);
             LOGGED.with(|l| *l.borrow_mut() = Some((idx, id)));
         }
@@ -125,6 +138,7 @@ fn thread_main<T: HashAlgorithm + 'static>(w: Arc<ShareWorld<T>>, sh: Arc<Shared
     let nomt = w.nomt.as_ref().unwrap();
     let mut sess: Option<(u64, Session<T>, bool)> = None;
     let mut fin: Option<(u64, FinishedSession)> = None;
+    let mut ovl: Option<(u64, nomt::Overlay)> = None;
     for opi in 0..sc.ops {
         watchdog::progress(&format!("conc run {} thread {tid} op {opi}", sc.run));
         if let Some((sid, s, witness)) = sess.take() {
@@ -227,7 +241,75 @@ fn thread_main<T: HashAlgorithm + 'static>(w: Arc<ShareWorld<T>>, sh: Arc<Shared
             continue;
         }
         // not holding a session
+        if let Some((oid, o)) = ovl.take() {
+            // holding an overlay (built on the committed state): commit it one way or the other, or drop it
+            match rng.below(5) {
+                0 | 1 => {
+                    arm(&sh, "overlay_commit.locked", json!({"ev":"OverlayCommit","a":"OverlayCommit","t":tid,"o":oid}));
+                    let r = o.commit(nomt);
+                    let res = match r {
+                        Ok(()) => "Ok".to_string(),
+                        Err(e) => classify_err(&e),
+                    };
+                    let idx = disarm().map(|x| x.0);
+                    let mut log = sh.log.lock().unwrap();
+                    match idx {
+                        Some(i) => log.recs[i]["res"] = json!(res),
+                        None => {
+                            log.push(json!({"ev":"OverlayCommit","a":"OverlayCommit","t":tid,"o":oid,"res":res,"nolin":true}));
+                        }
+                    }
+                }
+                2 | 3 => {
+                    arm(&sh, "overlay_try_commit.locked", json!({"ev":"OverlayTryCommit","a":"OverlayTryCommit","t":tid,"o":oid}));
+                    let r = o.try_commit_nonblocking(nomt);
+                    let idx = disarm().map(|x| x.0);
+                    let mut log = sh.log.lock().unwrap();
+                    match r {
+                        Ok(Some(back)) => {
+                            log.push(json!({"ev":"OverlayTryCommit","a":"OverlayTryCommit","t":tid,"o":oid,"res":"HandedBack"}));
+                            drop(log);
+                            ovl = Some((oid, back));
+                        }
+                        other => {
+                            let res = match other {
+                                Ok(None) => "Ok".to_string(),
+                                Err(e) => classify_err(&e),
+                                _ => unreachable!(),
+                            };
+                            match idx {
+                                Some(i) => log.recs[i]["res"] = json!(res),
+                                None => {
+                                    log.push(json!({"ev":"OverlayTryCommit","a":"OverlayTryCommit","t":tid,"o":oid,"res":res,"nolin":true}));
+                                }
+                            }
+                        }
+                    }
+                }
+                _ => {
+                    sh.log.lock().unwrap().push(json!({"ev":"DropOverlay","a":"DropOverlay","t":tid,"o":oid,"res":"Ok"}));
+                    drop(o);
+                }
+            }
+            continue;
+        }
         let choice = rng.below(10);
+        if fin.is_some() && rng.chance(1, 4) {
+            // turn the changeset into an overlay if identifiers are left
+            let (fid, f) = fin.take().unwrap();
+            let mut log = sh.log.lock().unwrap();
+            if log.next_ovl <= log.max_ovl {
+                let oid = log.next_ovl;
+                log.next_ovl += 1;
+                log.fin_free.insert(fid);
+                log.push(json!({"ev":"IntoOverlay","a":"IntoOverlay","t":tid,"f":fid,"o":oid,"res":"Ok"}));
+                drop(log);
+                ovl = Some((oid, f.into_overlay()));
+                continue;
+            }
+            drop(log);
+            fin = Some((fid, f));
+        }
         if let Some((fid, f)) = fin.take() {
             if choice < 4 {
                 arm(&sh, "commit.locked", json!({"ev":"Commit","a":"Commit","t":tid,"f":fid}));
@@ -238,10 +320,11 @@ fn thread_main<T: HashAlgorithm + 'static>(w: Arc<ShareWorld<T>>, sh: Arc<Shared
                 };
                 let idx = disarm().map(|x| x.0);
                 let mut log = sh.log.lock().unwrap();
-                log.fin_free.insert(fid);
                 match idx {
+                    // the identifier was freed when the record was logged at the linearisation point
                     Some(i) => log.recs[i]["res"] = json!(res),
                     None => {
+                        log.fin_free.insert(fid);
                         log.push(json!({"ev":"Commit","a":"Commit","t":tid,"f":fid,"res":res,"nolin":true}));
                     }
                 }
@@ -263,10 +346,10 @@ fn thread_main<T: HashAlgorithm + 'static>(w: Arc<ShareWorld<T>>, sh: Arc<Shared
                             Err(e) => classify_err(&e),
                             _ => unreachable!(),
                         };
-                        log.fin_free.insert(fid);
                         match idx {
                             Some(i) => log.recs[i]["res"] = json!(res),
                             None => {
+                                log.fin_free.insert(fid);
                                 log.push(json!({"ev":"TryCommit","a":"TryCommit","t":tid,"f":fid,"res":res,"nolin":true}));
                             }
                         }
@@ -345,6 +428,10 @@ fn thread_main<T: HashAlgorithm + 'static>(w: Arc<ShareWorld<T>>, sh: Arc<Shared
         drop(log);
         drop(f);
     }
+    if let Some((oid, o)) = ovl.take() {
+        sh.log.lock().unwrap().push(json!({"ev":"DropOverlay","a":"DropOverlay","t":tid,"o":oid,"res":"Ok"}));
+        drop(o);
+    }
 }
 
 fn run<T: HashAlgorithm + 'static>(sc: &ConcScript, scratch: &Path, out: &mut dyn Write) -> anyhow::Result<()> {
@@ -356,7 +443,8 @@ fn run<T: HashAlgorithm + 'static>(sc: &ConcScript, scratch: &Path, out: &mut dy
                "maxlog": sc.cfg.max_rollback_log_len, "rollback": sc.cfg.rollback, "st": st0}))?;
     let n = sc.threads.max(1);
     let sh = Arc::new(Shared {
-        log: Mutex::new(Log { seq: 0, recs: Vec::new(), sess_free: (1..=n as u64).collect(), fin_free: (1..=n as u64).collect() }),
+        log: Mutex::new(Log { seq: 0, recs: Vec::new(), sess_free: (1..=n as u64).collect(), fin_free: (1..=n as u64).collect(),
+                              next_ovl: 1, max_ovl: sc.max_ovl }),
     });
     nomt::verif::install_points(Some(Arc::new(|c: &str, n: &str| on_point(c, n))));
     let w = Arc::new(ShareWorld(w));
